@@ -37,7 +37,8 @@ RS2LEAN_SPECS = [('words.json', 'WordsSrcGen.lean', 'SrcWords'), ('rdh.json', 'R
                  ('alpidestats.json', 'AlpStatsSrcGen.lean', 'SrcAlpStats'),
                  ('scanner.json', 'ScanSrcGen.lean', 'SrcScan'),
                  ('linkval.json', 'LinkSrcGen.lean', 'SrcLink'),
-                 ('linkrdh.json', 'LinkRdhSrcGen.lean', 'SrcLinkRdh')]
+                 ('linkrdh.json', 'LinkRdhSrcGen.lean', 'SrcLinkRdh'),
+                 ('customstats.json', 'CustomSrcGen.lean', 'SrcCustom')]
 
 os.makedirs(CACHE, exist_ok=True)
 
